@@ -1,6 +1,7 @@
 package main
 
 import (
+	"strconv"
 	"os"
 	"fmt"
 	"path/filepath"
@@ -928,7 +929,7 @@ func (e *Enc) instr(ins ssa.Instruction) {
 		switch u := under(x.X.Type()).(type) {
 		case *types.Slice:
 			e.oblige("idx", desc, "", x.Pos(), e.guardGoal(and(app("<=", "0", idx), app("<", idx, app("slen", base.T)))))
-			e.define(x, app("elem", app("sarr", base.T), app("+", app("soff", base.T), idx)))
+			e.define(x, app("elem", app("sarr", base.T), e.ixAdd(app("soff", base.T), idx)))
 		case *types.Pointer:
 			arr := under(u.Elem()).(*types.Array)
 			e.oblige("nil", desc, "", x.Pos(), e.guardGoal(app("distinct", base.T, "nil")))
@@ -1030,13 +1031,9 @@ func (e *Enc) instr(ins ssa.Instruction) {
 		if e.token && isByteSlice(x.Type()) {
 			e.setBytes(h, v.T, app("bzeros", ln))
 		}
-		if e.precise {
+		if e.precise || (e.ct != nil && e.ct.Opts["make-zero"] != "" && !isByteSlice(x.Type())) {
+			// the new cells hold the zero value (always in array mode; in token mode on request: `opt make-zero 1`)
 			et := under(x.Type()).(*types.Slice).Elem()
-			for _, k := range e.w.keysOfType(et) {
-				if srt, ok := e.heapSort[k]; ok || true {
-					_ = srt
-				}
-			}
 			e.zeroFill(h, app("sarr", v.T), et)
 		}
 		if e.ct != nil && e.ct.Opts["alloc-chunk"] != "" {
@@ -1446,6 +1443,10 @@ func (e *Enc) binop(x *ssa.BinOp) {
 	if a.S == "Str" && x.Op == token.ADD {
 		n := e.fresh("cat", "Str")
 		e.assert(app("=", app("strlen", n), app("+", app("strlen", a.T), app("strlen", b.T))))
+		if e.token {
+			e.needB = true
+			e.assert(app("=", app("bstr", n), app("bcat", app("bstr", a.T), app("bstr", b.T))))
+		}
 		e.define(x, n)
 		return
 	}
@@ -1726,7 +1727,7 @@ func (e *Enc) sliceOp(x *ssa.Slice) {
 		if al, isAl := x.X.(*ssa.Alloc); isAl && e.token && typeKey(arr.Elem()) == "uint8" && onlySliced(al, x) {
 			// make([]byte, n) / make([]byte, n, N): a fresh zeroed array that is reachable through this slice only
 			e.setBytes(e.cur, r.T, app("bzeros", app("-", hi, lo)))
-		} else if e.token && typeKey(arr.Elem()) == "uint8" && arr.Len() <= 16 {
+		} else if e.token && typeKey(arr.Elem()) == "uint8" && arr.Len() <= e.arrayExpandMax() {
 			// a byte-array literal: its content is the cells as they are now
 			e.setBytes(e.cur, r.T, e.bytesExpand(e.cur, r.T, int(arr.Len())))
 		}
@@ -1755,6 +1756,16 @@ func onlySliced(al *ssa.Alloc, sl *ssa.Slice) bool {
 }
 
 // zeroFill: all cells of the fresh array arr (element type et) are zero (precise mode only).
+// arrayExpandMax: byte arrays up to this length have their slices' content read from the cells (16; `opt array-expand N`).
+func (e *Enc) arrayExpandMax() int64 {
+	if e.ct != nil && e.ct.Opts["array-expand"] != "" {
+		if n, err := strconv.Atoi(e.ct.Opts["array-expand"]); err == nil {
+			return int64(n)
+		}
+	}
+	return 16
+}
+
 func (e *Enc) zeroFill(h *Heap, arr string, et types.Type) {
 	if _, isStruct := under(et).(*types.Struct); isStruct {
 		return
@@ -1868,6 +1879,34 @@ func (e *Enc) ret(x *ssa.Return) {
 		if t, ok := e.evalClause(e.ct, en.Expr, env); ok {
 			e.oblige("post", en.Tag, en.Tag, x.Pos(), e.guardGoal(t))
 			e.obls[len(e.obls)-1].RetTerms = retTerms
+		}
+	}
+	// refinement: the postconditions of every interface-method contract this method implements
+	for _, ir := range e.w.Impls[e.fn] {
+		if len(e.fn.Params) == 0 {
+			continue
+		}
+		ienv := *env
+		ienv.names = map[string]binding{}
+		for k, v := range env.names {
+			ienv.names[k] = v
+		}
+		ienv.names["recv"] = binding{e.val(e.fn.Params[0]), e.fn.Params[0].Type()}
+		for i, n := range ir.Params {
+			if n != "" && i+1 < len(e.fn.Params) {
+				p := e.fn.Params[i+1]
+				ienv.names[n] = binding{e.val(p), p.Type()}
+				ienv.names[n+"0"] = binding{e.val(p), p.Type()}
+			}
+		}
+		for _, en := range ir.Ct.Ensures {
+			if en.Define {
+				continue
+			}
+			if t, ok := e.evalClause(ir.Ct, en.Expr, &ienv); ok {
+				e.oblige("post", "iface:"+ir.Key+":"+en.Tag, en.Tag, x.Pos(), e.guardGoal(t))
+				e.obls[len(e.obls)-1].RetTerms = retTerms
+			}
 		}
 	}
 	for _, fr := range e.ct.Fresh {
